@@ -608,6 +608,9 @@ func (m *Machine) step() {
 		} else {
 			o = m.newObject(et, m.zero(et), in.Comment)
 		}
+		if isHarnessFn(fr.fn) {
+			o.Ghost = true // a harness variable (ghost state): never a data race of the library
+		}
 		fr.regs[in] = &PtrV{Obj: o}
 	case *ssa.BinOp:
 		fr.regs[in] = m.binop(in.Op, m.get(fr, in.X), m.get(fr, in.Y), in.X.Type(), in.Y.Type())
